@@ -29,7 +29,7 @@ LEVEL = 'fault_enumeration'
 EVAL_KEY = 'steps'
 TIERS = {
     'quick': {'runs': 8000, 'opts': {'length': [10, 16], 'enum_prob': 0.15}, 'chunk': 50},
-    'thorough': {'runs': 30000, 'opts': {'length': [10, 30], 'enum_prob': 1.0}, 'chunk': 50, 'time_cap': 1200},
+    'thorough': {'runs': 80000, 'opts': {'length': [10, 30], 'enum_prob': 1.0}, 'chunk': 50, 'time_cap': 1200},
 }
 RULE = ('seeded histories over {create, save(path), save(file object), load, clone, detach, to, cpu, numpy, in-place mutation of '
         'the original, overwrite}; storage faults: ENOSPC at a planned write index (exhaustive over every write index of a save in '
